@@ -509,17 +509,17 @@ func ProcessRedTracesIngest(myid int64) {
 		pipesearch.ProcessPipeSearchRequest(ctx, myid)
 
 		// Parse initial data
-		rawSpanData := structs.RawSpanData{}
-		if err := json.Unmarshal(ctx.Response.Body(), &rawSpanData); err != nil {
+		pageSpans, numRecords, err := decodeSpans(ctx.Response.Body())
+		if err != nil {
 			writeErrMsg(ctx, "ProcessRedTracesIngest", "could not unmarshal json body", err)
 			return
 		}
 
-		if len(rawSpanData.Hits.Spans) == 0 {
+		if numRecords == 0 {
 			break
 		}
 
-		spans = append(spans, rawSpanData.Hits.Spans...)
+		spans = append(spans, pageSpans...)
 		searchRequestBody.From += 1000
 	}
 
@@ -650,6 +650,33 @@ func ProcessRedTracesIngest(myid int64) {
 	usageStats.UpdateTracesStats(uint64(numBytes), uint64(len(pleArray)), myid)
 }
 
+// decodeSpans parses the records of a search response one by one. A record
+// that does not fit a span (e.g. a document written to the traces index by
+// another ingest API with a duration that is not a uint64) is skipped, so that
+// it does not fail the whole page. numRecords counts the skipped records too.
+func decodeSpans(responseBody []byte) (spans []*structs.Span, numRecords int, err error) {
+	rawSpanData := struct {
+		Hits struct {
+			Records []json.RawMessage `json:"records"`
+		} `json:"hits"`
+	}{}
+	if err := json.Unmarshal(responseBody, &rawSpanData); err != nil {
+		return nil, 0, err
+	}
+
+	spans = make([]*structs.Span, 0, len(rawSpanData.Hits.Records))
+	for _, record := range rawSpanData.Hits.Records {
+		span := &structs.Span{}
+		if err := json.Unmarshal(record, span); err != nil {
+			log.Errorf("decodeSpans: skipping a record that is not a span, err=%v", err)
+			continue
+		}
+		spans = append(spans, span)
+	}
+
+	return spans, len(rawSpanData.Hits.Records), nil
+}
+
 func redMetricsToJson(redMetrics structs.RedMetrics, service string) ([]byte, error) {
 	result := make(map[string]interface{})
 	result["service"] = service
@@ -717,17 +744,17 @@ func MakeTracesDependancyGraph(startEpoch int64, endEpoch int64, myid int64) map
 		ctx.Request.Header.SetMethod("POST")
 		pipesearch.ProcessPipeSearchRequest(ctx, myid)
 
-		rawSpanData := structs.RawSpanData{}
-		if err := json.Unmarshal(ctx.Response.Body(), &rawSpanData); err != nil {
+		pageSpans, numRecords, err := decodeSpans(ctx.Response.Body())
+		if err != nil {
 			log.Errorf("MakeTracesDependancyGraph: could not unmarshal json body, err=%v", err)
 			return nil
 		}
 
-		if len(rawSpanData.Hits.Spans) == 0 {
+		if numRecords == 0 {
 			break
 		}
 
-		spans = append(spans, rawSpanData.Hits.Spans...)
+		spans = append(spans, pageSpans...)
 		from += 1000
 	}
 
